@@ -14,14 +14,15 @@ import (
 )
 
 type Program struct {
-	pkgs   []*packages.Package
-	ssa    *ssa.Program
-	spkgs  map[string]*ssa.Package
-	byName map[string]*types.Package
-	cs     *Contracts
-	lib    *SpecLib
-	funcs  map[string]*ssa.Function // key: pkgpath.relname
-	repo   string
+	pkgs    []*packages.Package
+	ssa     *ssa.Program
+	spkgs   map[string]*ssa.Package
+	byName  map[string]*types.Package
+	cs      *Contracts
+	lib     *SpecLib
+	funcs   map[string]*ssa.Function // key: pkgpath.relname
+	repo    string
+	curProp string
 
 	modCache   map[*ssa.Function]map[string]bool
 	modWhy     map[string]bool
